@@ -20,9 +20,14 @@ impl PartialEq for Pubkey {
 /// what leaves the program as a CPI, in order
 pub enum Cpi { MintGtReward { amount: u64 }, TransferFromVault { amount: u64, decimals: u8 }, CloseVault, ClosePosition }
 
-pub struct GlobalState { pub bump: u8, pub claim_enabled: bool, pub min_stake_value: u128 }
-pub struct Controller { pub total_positions: u64 }
-pub struct Position { pub cum_inv_cost: u128, pub staked_amount: u64, pub staked_value_usd: u128, pub lp_mint: Pubkey }
+/// the account structs with ALL their scalar fields (so that a change that starts reading another field still compiles here);
+/// the APY table and the reserved bytes are not carried
+//@struct programs/liquidity-provider/src/lib.rs :: pub struct GlobalState :: authority, pending_authority, apy_gradient, min_stake_value, claim_enabled, bump, pricing_staleness_seconds, reserved
+pub struct GlobalState { pub authority: Pubkey, pub pending_authority: Pubkey, pub min_stake_value: u128, pub claim_enabled: bool, pub bump: u8, pub pricing_staleness_seconds: u32 }
+//@struct programs/liquidity-provider/src/lib.rs :: pub struct LpTokenController :: global_state, lp_token_mint, controller_index, total_positions, is_enabled, disabled_at, disabled_cum_inv_cost, bump, reserved
+pub struct Controller { pub global_state: Pubkey, pub lp_token_mint: Pubkey, pub controller_index: u64, pub total_positions: u64, pub is_enabled: bool, pub disabled_at: i64, pub disabled_cum_inv_cost: u128, pub bump: u8 }
+//@struct programs/liquidity-provider/src/lib.rs :: pub struct Position :: owner, controller, lp_mint, vault, position_id, staked_amount, staked_value_usd, stake_start_time, cum_inv_cost, bump, reserved
+pub struct Position { pub owner: Pubkey, pub controller: Pubkey, pub lp_mint: Pubkey, pub vault: Pubkey, pub position_id: u64, pub staked_amount: u64, pub staked_value_usd: u128, pub stake_start_time: i64, pub cum_inv_cost: u128, pub bump: u8 }
 pub struct TokenAccount { pub amount: u64 }
 pub struct Mint { pub address: Pubkey, pub decimals: u8 }
 impl Mint { pub fn key(&self) -> (r: Pubkey) ensures r == self.address { self.address } }
